@@ -48,9 +48,11 @@ impl Iterator for Points<'_> {
     type Item = Point;
 
     fn next(&mut self) -> Option<Self::Item> {
-        if let Some(p) = self.segment_iter.next() {
-            Some(p)
-        } else {
+        loop {
+            if let Some(p) = self.segment_iter.next() {
+                return Some(p);
+            }
+
             let (start, rest) = self.vertices.split_first()?;
             let end = rest.first()?;
 
@@ -59,7 +61,7 @@ impl Iterator for Points<'_> {
             self.segment_iter = Line::new(*start + self.translate, *end + self.translate).points();
 
             // Skip first point of next line, otherwise we overlap with the previous line
-            self.nth(1)
+            self.segment_iter.next();
         }
     }
 }
